@@ -184,36 +184,40 @@ def check(ctx):
     ce = ctx.need(br.methods.get("create_error_answer"), "Bromelia.create_error_answer")
     construct = f"{br.qual}.create_error_answer"
     rq = [a.arg for a in ce.args.args if a.arg != "self"][0]
-    rets = [n.value for n in walk_no_nested(ce) if isinstance(n, ast.Return) and n.value is not None]
-    okr = len(rets) == 1 and isinstance(rets[0], ast.Call) and call_name(rets[0]) == "DiameterAnswer" and \
-        kwarg(rets[0], "header") is not None and ast.unparse(kwarg(rets[0], "header")) == f"{rq}.header"
+    # on terms: the returned object is DiameterAnswer(header=REQ.header, avps=[...]) whose six AVPs are built from the request
+    # and from the configuration of the application the request belongs to
+    RQ = sym.S(rq)
+    HDRQ = ("attr", RQ, "header")
+    CONF = ("attr", ("attr", ("sub", ("attr", ("name", "self"), "associations"), ("attr", HDRQ, "application_id")), "app"), "config")
+    eps = [p_ for p_ in sym.Interp(fold=lambda e: repo.fold(m, e)).run(strip_doc(ce.body), sym.PathState({rq: RQ}, [], [])) if p_.term == "return"]
+    okr = bool(eps)
+    elems = {}
+    for p_ in eps:
+        v = p_.value
+        good = isinstance(v, tuple) and v[0] == "call" and v[1] == ("name", "DiameterAnswer") and dict(v[3]).get("header") == HDRQ
+        okr = okr and good
+        avl = dict(v[3]).get("avps") if good else None
+        if avl is None and good and len(v[2]) >= 2:
+            avl = v[2][1]
+        if isinstance(avl, tuple) and avl and avl[0] == "list":
+            for e in avl[1]:
+                if isinstance(e, tuple) and e[0] == "call" and e[1][0] == "name" and len(e[2]) == 1:
+                    elems.setdefault(e[1][1], set()).add(e[2][0])
     ctx.decide(okr, "R-FLOW/error-answer", construct, br.where(ce), "DiameterAnswer(header=request.header, ...)",
                "the error answer is not a DiameterAnswer built from the request's header (identifiers would be lost)", key="header")
-    lists = [n for n in ast.walk(ce) if isinstance(n, ast.List)]
-    elems = {}
-    for l in lists:
-        for e in l.elts:
-            if isinstance(e, ast.Call) and isinstance(e.func, ast.Name) and e.args:
-                elems[e.func.id] = e.args[0]
     want = {
-        "SessionIdAVP": lambda a: ast.unparse(a) == f"{rq}.session_id_avp.data",
-        "ResultCodeAVP": lambda a: repo.fold(m, a) == (5012).to_bytes(4, "big"),
-        "OriginHostAVP": lambda a: ast.unparse(a) == "config['LOCAL_NODE_HOSTNAME']",
-        "OriginRealmAVP": lambda a: ast.unparse(a) == "config['LOCAL_NODE_REALM']",
-        "DestinationRealmAVP": lambda a: ast.unparse(a) == f"{rq}.origin_realm_avp.data",
-        "DestinationHostAVP": lambda a: ast.unparse(a) == f"{rq}.origin_host_avp.data",
+        "SessionIdAVP": ("attr", ("attr", RQ, "session_id_avp"), "data"),
+        "ResultCodeAVP": (5012).to_bytes(4, "big"),
+        "OriginHostAVP": ("sub", CONF, "LOCAL_NODE_HOSTNAME"),
+        "OriginRealmAVP": ("sub", CONF, "LOCAL_NODE_REALM"),
+        "DestinationRealmAVP": ("attr", ("attr", RQ, "origin_realm_avp"), "data"),
+        "DestinationHostAVP": ("attr", ("attr", RQ, "origin_host_avp"), "data"),
     }
-    for k, pred in want.items():
-        a = elems.get(k)
-        ctx.decide(a is not None and pred(a), "R-FLOW/error-answer", construct, br.where(a if a is not None else ce),
-                   f"{k} <- {ast.unparse(a) if a is not None else None}",
-                   f"{k} of the error answer is built from `{ast.unparse(a) if a is not None else None}`", key=f"field:{k}")
-    cfgsrc = [ast.unparse(s.value) for s in walk_no_nested(ce) if isinstance(s, ast.Assign) and isinstance(s.targets[0], ast.Name)
-              and s.targets[0].id == "config"]
-    ctx.decide(cfgsrc == ["self.associations[application_id].app.config"] or
-               cfgsrc == [f"self.associations[{rq}.header.application_id].app.config"], "R-FLOW/error-answer", construct,
-               br.where(ce), "local origin comes from the configuration of the request's application",
-               f"config comes from {cfgsrc}", key="config", nontrivial=False)
+    for k, w in want.items():
+        got = elems.get(k, set())
+        ctx.decide(got == {w}, "R-FLOW/error-answer", construct, br.where(ce),
+                   f"{k} <- {sym.show(w)[:60]}",
+                   f"{k} of the error answer is built from {sorted(sym.show(x)[:70] for x in got)}, expected {sym.show(w)[:70]}", key=f"field:{k}")
 
     # ---- 5 single put --------------------------------------------------------------------------------
     ctx.clause = "5-single-put"
